@@ -52,6 +52,12 @@ TypeAt(t, p, ctx) ==
   IF p = <<>> THEN TypeOf(t, ctx)
   ELSE TypeAt(Kids(t)[p[1]], Tail(p), (IF t.k = "bi" /\ p[1] = 2 THEN TypeOf(t.x, ctx) ELSE ctx))
 
+(* static type of the collection of the innermost closure enclosing the sub-tree at path p ("" outside any) *)
+RECURSIVE CtxAt(_, _, _)
+CtxAt(t, p, ctx) ==
+  IF p = <<>> THEN ctx
+  ELSE CtxAt(Kids(t)[p[1]], Tail(p), (IF t.k = "bi" /\ p[1] = 2 THEN TypeOf(t.x, ctx) ELSE ctx))
+
 ---------------------------------------------------------------------------
 (* faults: tokens, the 1-based offset of the anchor token, and for run faults  *)
 (* the tree that is evaluated                                                  *)
@@ -88,6 +94,24 @@ MoreFaults ==
    Fault("equality of a string and a number", <<TBr("("), TId("S"), TOp("=="), TNum("1"), TBr(")")>>, 1, NNil),
    Fault("membership in a number", <<TBr("("), TNum("1"), TOp("in"), TId("I"), TBr(")")>>, 1, NNil),
    Fault("modulo of a float", <<TBr("("), TId("F"), TOp("%"), TNum("2"), TBr(")")>>, 1, NNil)}
+
+(* C03: violations that are violations only by the type of the element the closure iterates over: the *)
+(* current element `#` used against the element type of the innermost enclosing collection (wherever   *)
+(* other builtins, over collections of other element types, come before or after it)                  *)
+CtxFaults(elem) ==
+  IF elem = "" THEN {}
+  ELSE IF elem = "string"
+  THEN {Fault("string element compared with a number", <<TBr("("), TOp("#"), TOp(">"), TNum("1"), TBr(")")>>, 1, NNil),
+        Fault("string element plus a number", <<TBr("("), TOp("#"), TOp("+"), TNum("1"), TBr(")")>>, 1, NNil),
+        Fault("minus on a string element", <<TBr("("), TOp("-"), TOp("#"), TBr(")")>>, 1, NNil),
+        Fault("string element for an int parameter", <<TId("Id"), TBr("("), TOp("#"), TBr(")")>>, 1, NNil)}
+  ELSE IF elem = "int"
+  THEN {Fault("int element plus a string", <<TBr("("), TOp("#"), TOp("+"), TStr("a"), TBr(")")>>, 1, NNil),
+        Fault("matches on an int element", <<TBr("("), TOp("#"), TOp("matches"), TStr("a"), TBr(")")>>, 1, NNil),
+        Fault("logical operator on an int element", <<TBr("("), TOp("#"), TOp("and"), TId("B"), TBr(")")>>, 1, NNil),
+        Fault("int element for a string parameter", <<TId("Cat"), TBr("("), TOp("#"), TOp(","), TStr("a"), TBr(")")>>, 1, NNil)}
+  ELSE {Fault("struct element compared with a number", <<TBr("("), TOp("#"), TOp(">"), TNum("1"), TBr(")")>>, 1, NNil),
+        Fault("unknown field of the element", <<TOp("#"), TOp("."), TId("Zq")>>, 1, NNil)}
 
 RunFaults ==
   {Fault("modulo by zero", <<TBr("("), TId("J"), TOp("%"), TId("U8"), TBr(")")>>, 3, NBin("%", NId("J"), NId("U8"))),
@@ -145,6 +169,11 @@ EmitErr ==
              IN (f.name = "unknown identifier" /\ sp.anchor < Len(sp.toks) /\ sp.toks[sp.anchor + 1] = TOp("?."))
                 \/ PrintT(ToJson([kind |-> "reject", fault |-> f.name, n |-> n,
                                    texts |-> <<TextMin(sp.toks), TextWild(sp.toks)>>]))
+      ELSE IF ErrMode = "ctx"
+      THEN \A f \in CtxFaults(IF CtxAt(Tree, p, "") = "" THEN "" ELSE ElemT(CtxAt(Tree, p, ""))) :
+             LET sp == Spliced(Tree, p, f)
+             IN PrintT(ToJson([kind |-> "reject", fault |-> f.name, n |-> n,
+                               texts |-> <<TextMin(sp.toks), TextWild(sp.toks)>>]))
       ELSE IF ErrMode = "compile"
       THEN \A f \in CompileFaults :
              \* (an unknown first identifier of a nil-safe chain, `Zq?.x`, is accepted by design)
